@@ -891,6 +891,12 @@ C07_OneLegalOutcome ==
   \A r \in ORpcs : (RealSrv /\ rp[r].cRes.cls # "none" /\ ~(tun.sendFailed /\ rp[r].cRes.cls = "err")) =>
      \/ rp[r].sid \in OSids /\ ws[rp[r].sid].closeDeliv /\ ResMatchesClose(rp[r].cRes, ws[rp[r].sid].close)
      \/ LocalOK(r, rp[r].cRes)
+\* never a mixture: the trailers the caller reads with its terminal result belong to that outcome - the close
+\* frame's when the result is the close frame's, none when a local cause ended the RPC
+C07_NoMixture ==
+  \A r \in ORpcs : (RealSrv /\ RealCli /\ rp[r].trlSeen /\ rp[r].cRes.cls # "none" /\ rp[r].sid \in OSids /\ ~cfg.auto /\ ~tun.sendFailed) =>
+     \/ ws[rp[r].sid].closeDeliv /\ ResMatchesClose(rp[r].cRes, ws[rp[r].sid].close) /\ MDEq(rp[r].trl, ws[rp[r].sid].close.md)
+     \/ MDEq(rp[r].trl, MD0) /\ LocalOK(r, rp[r].cRes)
 \* cancelled / expired at the caller: no caller op of that RPC stays blocked
 \* (with a bounded carrier - C05's domain, not C07's - an op can be blocked inside the transport's own
 \* Send, which no RPC context can interrupt: these two formulas are judged on unbounded carriers)
@@ -1130,7 +1136,7 @@ Formulas == [
   C02_StatusExact |-> C02_StatusExact, C02_TrailersAtTerminal |-> C02_TrailersAtTerminal,
   C02_HeadersExact |-> C02_HeadersExact, C02_HeadersByFirstMsg |-> C02_HeadersByFirstMsg,
   C02_RequestMD |-> C02_RequestMD, C02_EncodableMetadata |-> C02_EncodableMetadata,
-  C07_OneLegalOutcome |-> C07_OneLegalOutcome, C07_CallerEndsAlone |-> C07_CallerEndsAlone,
+  C07_OneLegalOutcome |-> C07_OneLegalOutcome, C07_CallerEndsAlone |-> C07_CallerEndsAlone, C07_NoMixture |-> C07_NoMixture,
   C07_HandlerReleased |-> C07_HandlerReleased,
   C04_CallsEnd |-> C04_CallsEnd, C04_HandlersReleased |-> C04_HandlersReleased,
   C04_ClientObserves |-> C04_ClientObserves, C04_ServerObserves |-> C04_ServerObserves,
